@@ -14,6 +14,7 @@ import (
 
 	"github.com/biogo/biogo/alphabet"
 	"github.com/biogo/biogo/feat"
+	"github.com/biogo/biogo/io/featio"
 	"github.com/biogo/biogo/io/featio/bed"
 	"github.com/biogo/biogo/io/featio/gff"
 	"github.com/biogo/biogo/io/seqio"
@@ -317,6 +318,76 @@ func ReadAll(format string, cfg Cfg, text []byte, variant int) (results []Rec, s
 	return results, stop, "no io.EOF after 2*lines+6 calls"
 }
 
+// ScanAll runs the real seqio/featio Scanner over the text: the records it yields, whether Error() is
+// non-nil afterwards, and whether Next stays false once it has returned false (extension, spec/Formats/Scanner.tla).
+func ScanAll(format string, cfg Cfg, text []byte, variant int) (yielded []Rec, hasErr, sticky bool, status string) {
+	yielded = []Rec{}
+	defer func() {
+		if p := recover(); p != nil {
+			status = fmt.Sprintf("panic: %v", p)
+		}
+	}()
+	rd := bytes.NewReader(text)
+	limit := 2*bytes.Count(text, []byte{'\n'}) + 8
+	var next func() bool
+	var cur func() Rec
+	var errf func() error
+	switch format {
+	case "fasta", "fastq":
+		var r seqio.Reader
+		if format == "fasta" {
+			var t seqio.SequenceAppender = linear.NewSeq("", nil, alphabet.DNA)
+			if variant%2 == 1 {
+				t = linear.NewQSeq("", nil, alphabet.DNA, alphabet.Sanger)
+			}
+			r = fasta.NewReader(rd, t)
+		} else {
+			r = fastq.NewReader(rd, linear.NewQSeq("", nil, alphabet.DNA, encOf(num(cfg["offset"]), variant)))
+		}
+		sc := seqio.NewScanner(r)
+		if variant%3 == 1 {
+			sc = seqio.NewScannerFromFunc(r.Read)
+		}
+		next, errf = sc.Next, sc.Error
+		cur = func() Rec { return seqRec(sc.Seq(), format == "fastq") }
+	case "bed", "gff":
+		var r featio.Reader
+		if format == "bed" {
+			br, err := bed.NewReader(rd, num(cfg["r"]))
+			if err != nil {
+				vt.Fatal("bed.NewReader: %v", err)
+			}
+			r = br
+		} else {
+			r = gff.NewReader(rd)
+		}
+		sc := featio.NewScanner(r)
+		if variant%3 == 1 {
+			sc = featio.NewScannerFromFunc(r.Read)
+		}
+		next, errf = sc.Next, sc.Error
+		cur = func() Rec {
+			if format == "bed" {
+				return bedRec(sc.Feat())
+			}
+			return gffRec(sc.Feat())
+		}
+	default:
+		vt.Fatal("unknown format %q", format)
+	}
+	for n := 0; next(); n++ {
+		if n > limit {
+			return yielded, false, false, "hang"
+		}
+		rec := cur()
+		delete(rec, "_span")
+		yielded = append(yielded, rec)
+	}
+	hasErr = errf() != nil
+	sticky = !next() && !next() && (errf() != nil) == hasErr
+	return yielded, hasErr, sticky, ""
+}
+
 // ---------------------------------------------------------------- writers
 
 func seqOf(r Rec, withQ bool, enc alphabet.Encoding, alpha alphabet.Alphabet) seq.Sequence {
@@ -531,6 +602,12 @@ func ReadEmitted(w *vt.W, path string) int {
 			ev["recs"] = e.Expect
 		}
 		w.Emit(ev)
+		if detail == "" || stop > 0 {
+			// extension: the same file through the Scanner wrappers
+			ys, hasErr, sticky, status := ScanAll(e.Fmt, e.Cfg, text, n)
+			w.Emit(vt.Ev{"op": "scan", "fmt": e.Fmt, "results": results, "yielded": ys, "err": hasErr, "sticky": sticky, "status": status,
+				"valid": e.Valid, "layout": ev["layout"]})
+		}
 		// records of the bounded model through the real writers as well (C01/C02), when the file as first
 		// written carries the full records
 		full := e.Fmt != "bed" || (num(e.Cfg["r"]) == num(e.Cfg["w"]) && num(e.Cfg["w"]) == num(e.Cfg["m"]))
